@@ -142,6 +142,28 @@ fn map_edits(m: &MapSpec) -> Vec<(&'static str, MapSpec)> {
       Some(f) => Some(format!("{f}x")),
     };
   });
+  // absent <-> present but empty
+  push("map: sourceRoot absent <-> empty", &|n| {
+    n.root = match n.root.as_deref() {
+      None => Some(String::new()),
+      Some("") => None,
+      Some(x) => Some(x.to_string()),
+    };
+  });
+  push("map: file absent <-> empty", &|n| {
+    n.file = match n.file.as_deref() {
+      None => Some(String::new()),
+      Some("") => None,
+      Some(x) => Some(x.to_string()),
+    };
+  });
+  push("map: debugId absent <-> empty", &|n| {
+    n.debug_id = match n.debug_id.as_deref() {
+      None => Some(String::new()),
+      Some("") => None,
+      Some(x) => Some(x.to_string()),
+    };
+  });
   push("map: debugId", &|n| {
     n.debug_id = match &n.debug_id {
       None => Some("0000-1".into()),
@@ -189,15 +211,36 @@ fn node_edits(s: &Spec, include_sms_name: bool) -> Vec<(&'static str, Spec)> {
       out.push(("original file name", Spec::Orig { text: text.clone(), name: format!("{name}.x") }));
       out.push(("type tag: OriginalSource -> RawSource", Spec::Raw(text.clone())));
     }
-    Spec::Sms { text, name, map } => {
+    Spec::Sms { text, name, map, full } => {
       for n in bump_text(text) {
-        out.push(("leaf text", Spec::Sms { text: n, name: name.clone(), map: map.clone() }));
+        out.push(("leaf text", Spec::Sms { text: n, name: name.clone(), map: map.clone(), full: full.clone() }));
       }
       if include_sms_name {
-        out.push(("SourceMapSource name", Spec::Sms { text: text.clone(), name: format!("{name}.x"), map: map.clone() }));
+        out.push(("SourceMapSource name", Spec::Sms { text: text.clone(), name: format!("{name}.x"), map: map.clone(), full: full.clone() }));
       }
       for (k, m) in map_edits(map) {
-        out.push((k, Spec::Sms { text: text.clone(), name: name.clone(), map: m }));
+        out.push((k, Spec::Sms { text: text.clone(), name: name.clone(), map: m, full: full.clone() }));
+      }
+      // the two option fields that mean nothing without an inner map (they still take part in == / hash)
+      let mk = |f: Option<(Option<String>, bool)>| Spec::Sms { text: text.clone(), name: name.clone(), map: map.clone(), full: f };
+      match full {
+        None => {
+          out.push(("options: WithoutOriginalOptions -> full options, remove_original_source", mk(Some((None, true)))));
+          out.push(("options: WithoutOriginalOptions -> full options, original_source", mk(Some((Some("orig".into()), false)))));
+        }
+        Some((o, r)) => {
+          out.push(("options: remove_original_source (no inner map)", mk(Some((o.clone(), !*r)))));
+          out.push((
+            "options: original_source (no inner map)",
+            mk(Some((
+              match o {
+                None => Some("orig".into()),
+                Some(x) => Some(format!("{x}x")),
+              },
+              *r,
+            ))),
+          ));
+        }
       }
     }
     Spec::SmsInner { text, name, map, original, inner, remove } => {
